@@ -110,6 +110,7 @@ class Env:
     if plan["kind"] in ("ec", "ecdsa"):
       self.alloc.install()
     self.callfault = None
+    self.reimport_failed = False
     self.armed = None
     self.constructed = {}
     self._set_knobs(knobs)
@@ -372,6 +373,17 @@ def subject_segment(plan, start, pool_bytes):
         env.callfault.heal()
       env.storage_counters["armed"] = False
       env.armed = None
+    elif name == "reimport_version":
+      import importlib
+      from paranoid_crypto import version as _version
+      if not (op.get("only_if_failed") and not env.reimport_failed):
+        try:
+          importlib.reload(_version)
+          env.reimport_failed = False
+          ev["reimport"] = "ok"
+        except Exception as ex:  # pylint: disable=broad-except
+          env.reimport_failed = True
+          ev["reimport"] = "raised %s" % type(ex).__name__
     elif name == "curve_op":
       ev["curve"] = run_curve_op(op)
       ev["state_after"] = state_probe()
